@@ -177,12 +177,19 @@ def inputs_intact(chk, repo, rule, where='TidalPy/RadialSolver/solver.pyx'):
         for scen, extra, fail in (('normal return', {}, None), ('integration failure, success=False', {}, 1), ('integration failure raised (raise_on_fail)', {'raise_on_fail': True}, 1)):
             lab = ' / '.join(kinds)
             r = run_with_failure(repo, kinds, extra, fail)
-            bad = []
+            bad = []; worstK = 0
+            from .common import rounding_count
             for nm, orig in r.inputs.items():
                 for i, ov in enumerate(orig):
                     fv = r.final_arrays[nm][i]
                     if not isinstance(fv, X.Node) or not d.equal(fv, ov):
                         bad.append(f'{nm}[{i}]'); break
+                    # "to within a few ulp": the restored value is the original scaled and unscaled by the same factor (two roundings); a first-order bound K u is computed
+                    K_ = rounding_count(fv)
+                    if K_ is None or K_ > 8:
+                        bad.append(f'{nm}[{i}] is restored only to {"an unbounded" if K_ is None else f"{float(K_):.3g} u"} relative error (more than a few ulp)'); break
+                    worstK = max(worstK, K_)
+            chk.note_analysed('restore rounding bounds', f'layers {lab}, {scen}: K <= {float(worstK):.3g}')
             so = r.solution_obj
             extra_ok = True
             if fail is not None and not extra:
